@@ -53,8 +53,10 @@ func (tl *TaskLane) startQueue(index int) {
 		case <-tl.ctx.Done():
 			return
 		case task = <-tl.bufferedQueueList[index]:
+			verifAt("q.took", index)
 		}
 		tl.blockingTaskCnt.Add(1)
+		verifAt("q.counted", index)
 		select {
 		case <-tl.ctx.Done():
 			return
@@ -62,6 +64,7 @@ func (tl *TaskLane) startQueue(index int) {
 			select {
 			case tl.blockingQueueList[index] <- task:
 			default:
+				verifAt("q.blocking", index)
 				select {
 				case <-tl.ctx.Done():
 					return
@@ -70,6 +73,7 @@ func (tl *TaskLane) startQueue(index int) {
 				}
 			}
 		}
+		verifAt("q.handed", index)
 		tl.blockingTaskCnt.Add(^uint32(0)) // decrement blockingTaskCnt
 	}
 }
@@ -94,6 +98,7 @@ func (tl *TaskLane) startWorker(index int) {
 				}
 			}
 		}
+		verifAt("w.got", index)
 		func() {
 			defer func() {
 				if err := recover(); err != nil {
@@ -195,10 +200,12 @@ func (tl *TaskLane) ShortestQueueIndex() int {
 // context.Canceled or context.DeadlineExceeded if the context was Done.
 // tasklane.ErrTimeout if specified TaskQueue is full until timeout.
 func (tl *TaskLane) PushTask(task Task, index int) error {
+	verifAt("p.enter", index)
 	select {
 	case <-tl.ctx.Done():
 		return tl.ctx.Err()
 	default:
+		verifAt("p.inner", index)
 		select {
 		case <-tl.ctx.Done():
 			return tl.ctx.Err()
